@@ -45,7 +45,7 @@ TReset ==
 \* order of concurrent dials need not be the counter order, and concurrent first resolutions
 \* of a host may each start a counter of their own)
 TAddrs ==
-  /\ IsEvent("td.addrs") /\ pc[G] = "new" /\ ResolveOf[host[G]] = "ok"
+  /\ IsEvent("td.addrs") /\ pc[G] = "new" /\ ResolveOf[host[G]] \in {"ok", "flaky"}
   /\ E.b = Len(AddrsOf[host[G]]) /\ E.a >= 1 /\ E.a <= Cardinality(Dials)
   /\ idx' = [idx EXCEPT ![G] = E.a]
   /\ rot' = [rot EXCEPT ![host[G]] = @ + 1] /\ used' = [used EXCEPT ![host[G]] = @ \cup {E.a}]
@@ -54,7 +54,8 @@ TAddrs ==
 
 TResolveErr ==
   /\ IsEvent("td.resolve.err") /\ pc[G] = "new" /\ ResolveOf[host[G]] # "ok"
-  /\ expired' = [expired EXCEPT ![G] = @ \/ ResolveOf[host[G]] = "hang"]
+  /\ ResolveOf[host[G]] = "flaky" => rot[host[G]] > 0
+  /\ expired' = [expired EXCEPT ![G] = @ \/ ResolveOf[host[G]] \in {"hang", "flaky"}]
   /\ Finish(G, "resolveerr")
   /\ UNCHANGED <<host, idx, tried, order, lastErr, slots, rot, used>>
 
